@@ -8,6 +8,7 @@ import (
 	"context"
 	"fmt"
 	"io"
+	stdlog "log"
 	"sync"
 	"time"
 
@@ -17,6 +18,7 @@ import (
 	"github.com/marekgalovic/anndb/storage"
 	"github.com/marekgalovic/anndb/storage/raft"
 
+	etcdRaft "github.com/coreos/etcd/raft"
 	badger "github.com/dgraph-io/badger/v2"
 	uuid "github.com/satori/go.uuid"
 	log "github.com/sirupsen/logrus"
@@ -27,6 +29,7 @@ import (
 func quietLogs() {
 	log.SetOutput(io.Discard)
 	log.SetLevel(log.PanicLevel)
+	etcdRaft.SetLogger(&etcdRaft.DefaultLogger{Logger: stdlog.New(io.Discard, "", 0)})
 }
 
 func memBadger() *badger.DB {
@@ -200,7 +203,7 @@ func (n *simNode) check(kind string) error {
 	return nil
 }
 
-func (n *simNode) setUnreachable(v bool) { n.mu.Lock(); n.unreachable = v; n.mu.Unlock() }
+func (n *simNode) setUnreachable(v bool)             { n.mu.Lock(); n.unreachable = v; n.mu.Unlock() }
 func (n *simNode) setGate(g func(kind string) error) { n.mu.Lock(); n.gate = g; n.mu.Unlock() }
 
 // ---------------------------------------------------------------- raft transport shim
@@ -216,7 +219,9 @@ func (c *memRaftClient) Receive(ctx context.Context, in *pb.RaftMessage, opts ..
 // ---------------------------------------------------------------- DataManager shim over the real service object
 type memDataManagerClient struct{ to *simNode }
 
-func (c *memDataManagerClient) srv() pb.DataManagerServer { return services.NewDataManagerServer(c.to.dm) }
+func (c *memDataManagerClient) srv() pb.DataManagerServer {
+	return services.NewDataManagerServer(c.to.dm)
+}
 
 func (c *memDataManagerClient) Insert(ctx context.Context, in *pb.InsertRequest, opts ...grpc.CallOption) (*pb.EmptyMessage, error) {
 	if err := c.to.check("Insert"); err != nil {
@@ -288,16 +293,16 @@ type memStream struct {
 	pos   int
 }
 
-func (s *memStream) Send(m *pb.SearchResultItem) error       { s.items = append(s.items, m); return nil }
-func (s *memStream) SetHeader(metadata.MD) error              { return nil }
-func (s *memStream) SendHeader(metadata.MD) error             { return nil }
-func (s *memStream) SetTrailer(metadata.MD)                   {}
-func (s *memStream) Context() context.Context                 { return s.ctx }
-func (s *memStream) SendMsg(m interface{}) error              { return nil }
-func (s *memStream) RecvMsg(m interface{}) error              { return nil }
-func (s *memStream) Header() (metadata.MD, error)             { return nil, nil }
-func (s *memStream) Trailer() metadata.MD                     { return nil }
-func (s *memStream) CloseSend() error                         { return nil }
+func (s *memStream) Send(m *pb.SearchResultItem) error { s.items = append(s.items, m); return nil }
+func (s *memStream) SetHeader(metadata.MD) error       { return nil }
+func (s *memStream) SendHeader(metadata.MD) error      { return nil }
+func (s *memStream) SetTrailer(metadata.MD)            {}
+func (s *memStream) Context() context.Context          { return s.ctx }
+func (s *memStream) SendMsg(m interface{}) error       { return nil }
+func (s *memStream) RecvMsg(m interface{}) error       { return nil }
+func (s *memStream) Header() (metadata.MD, error)      { return nil, nil }
+func (s *memStream) Trailer() metadata.MD              { return nil }
+func (s *memStream) CloseSend() error                  { return nil }
 func (s *memStream) Recv() (*pb.SearchResultItem, error) {
 	if s.pos >= len(s.items) {
 		return nil, io.EOF
